@@ -243,6 +243,76 @@ hex_case!(c15_hex_lower_mut_1, 1, false, true);
 // @h props=C15 tier=quick group=fmt timeout=1500 note=UpperHex_BytesMut_1_symbolic_byte
 hex_case!(c15_hex_upper_mut_1, 1, true, true);
 
+// ---- long buffers: a block-wise encoder is only wrong beyond its block size (s67: bytes 64..128 of every 128-byte block dropped).
+// The 2-byte harnesses above decide the per-byte encoding for all values; this one decides "every byte, in order, nothing dropped"
+// for one concrete 66-byte buffer (past one 64-byte block).
+const HL: usize = 66;
+static mut HEX_LONG: [u8; HL] = [0; HL];
+/// checks the stream against the expected digits as it arrives (no output buffer; one symbolic position per piece)
+struct HexStream {
+    n: usize,
+    bad: bool,
+    upper: bool,
+}
+impl core::fmt::Write for HexStream {
+    fn write_str(&mut self, s: &str) -> core::fmt::Result {
+        // loop-free: one symbolically chosen character of this piece is compared (= all of them, decided by the solver), so that the
+        // unwind bound does not have to cover the longest piece an implementation may hand over in one call (s67: 128 characters)
+        let b = s.as_bytes();
+        if b.len() > 0 {
+            let i = any_below(b.len());
+            let pos = self.n + i;
+            if pos < 2 * HL {
+                let v = unsafe { HEX_LONG[pos / 2] };
+                let nib = if pos % 2 == 0 { v >> 4 } else { v & 15 };
+                if b[i] != hexdigit(nib, self.upper) {
+                    self.bad = true;
+                }
+            } else {
+                self.bad = true;
+            }
+            self.n += b.len();
+        }
+        Ok(())
+    }
+}
+macro_rules! hex_long_case {
+    ($name:ident, $upper:expr) => {
+        #[kani::proof]
+        #[kani::unwind(69)]
+        #[kani::stub(core::slice::index::slice_index_fail, stub_slice_index_fail)]
+        pub fn $name() {
+            unsafe {
+                let mut i = 0;
+                while i < HL {
+                    HEX_LONG[i] = (i as u8).wrapping_mul(37).wrapping_add(11);
+                    i += 1;
+                }
+            }
+            // length and contents are CONCRETE: one run of the real formatting code through the symbolic engine.  A symbolic byte
+            // makes core::fmt's digit loop symbolic (x unwind 133 for 130 bytes: > 4 GB), a symbolic length 0..=130 reached 3.3 GB / 260 s
+            // without a verdict; the symbolic claim about hex stays at <= 2 bytes (harnesses above).
+            let n = HL;
+            let s: &'static [u8] = unsafe { core::slice::from_raw_parts(core::ptr::addr_of!(HEX_LONG) as *const u8, n) };
+            let b = Bytes::from_static(s);
+            let mut sink = HexStream { n: 0, bad: false, upper: $upper };
+            if $upper {
+                write!(sink, "{:X}", b).unwrap();
+            } else {
+                write!(sink, "{:x}", b).unwrap();
+            }
+            assert!(!sink.bad, "hex digit stream differs from two digits per byte, in order");
+            assert!(sink.n == 2 * n, "hex output length is not two digits per byte");
+            kani::cover!(n == HL, "full 130 bytes printed");
+            end_reached!();
+        }
+    };
+}
+// @h props=C15 tier=quick group=fmt timeout=1500 note=LowerHex_one_concrete_66-byte_buffer(regression_point_beyond_the_64-byte_harness_bound)
+hex_long_case!(c15_hex_lower_long, false);
+// @h props=C15 tier=thorough group=fmt timeout=3000 note=UpperHex_one_concrete_66-byte_buffer(regression_point_beyond_the_64-byte_harness_bound)
+hex_long_case!(c15_hex_upper_long, true);
+
 // @h props=C15 tier=quick flags=witness group=fmt
 #[kani::proof]
 #[kani::unwind(26)]
